@@ -1000,6 +1000,39 @@ func (e *Engine) joinAllDefs(ss []*State, fr *Frame, where string, head bool, pe
 			}
 		}
 	}
+	// (b') rewritten through a general definition z = e: a constraint that contains
+	// a multiple of e's linear part is restated over z
+	for _, d := range defs {
+		for i, w := range work {
+			if i >= len(d.exp) {
+				continue
+			}
+			ex := d.exp[i]
+			if len(ex.T) < 2 {
+				continue
+			}
+			first := ex.T[0]
+			for _, c := range w.cons {
+				kc := c.Coef(first.S)
+				if kc == 0 || kc%first.K != 0 || c.Has(d.z) {
+					continue
+				}
+				k := kc / first.K
+				nc := c.Sub(ex.Scale(k)).Add(V(d.z).Scale(k))
+				// accept only if every symbol of e disappeared
+				clean := true
+				for _, t := range ex.T {
+					if nc.Has(t.S) {
+						clean = false
+						break
+					}
+				}
+				if clean {
+					addCand(nc)
+				}
+			}
+		}
+	}
 	// (c) templates
 	addBoth := func(l Lin) { addCand(l); addCand(l.Neg()) }
 	if head {
